@@ -639,4 +639,67 @@ def r7_failure_memo(a, tier):
     return rep
 
 
-RULES = [r1_key_derivation, r2_ownership, r3_observer_purity, r4_flag_confinement, r5_settings_gate_only_the_store, r_replay, r7_failure_memo]
+def r8_key_identity(a, tier):
+    from ..minieval import Unsupported
+    from ..modelinterp import Bound, ModelInterp, Stub
+    rep = RuleReport(
+        'C04.R8',
+        'the memo key tells rules apart: MemoKey and RuleInfo are tuples (equal only when every field is); where either class defines '
+        'its own __eq__ / __ne__, that method - interpreted on stand-in rule records - says "different" for two rules whose names differ '
+        '(also when they differ only by underscores, case or a suffix: value / value_ / _value / Value / values) and for two positions, and '
+        '__hash__ gives equal records equal hashes; a result stored for one rule is never replayed for another',
+        floor=3,
+    )
+    INFOS = 'tatsu.contexts.infos'
+    names = ['value', 'value_', '_value', '_value_', 'Value', 'values', 'v']
+
+    def rec(cls_q, **kw):
+        return Stub(cls_q, **kw)
+    for short in ('RuleInfo', 'MemoKey'):
+        q = f'{INFOS}.{short}'
+        ci = a.p.classes.get(q)
+        if ci is None:
+            raise AnalysisError(f'C04.R8: {q} not found')
+        is_tuple = any(b.split('.')[-1] in ('NamedTuple', 'tuple') for b in a.ct.bases(q)) or 'NamedTuple' in ' '.join(norm(b) for b in ci.node.bases)
+        own = {m: ci.methods[m] for m in ('__eq__', '__ne__', '__hash__') if m in ci.methods}
+        rep.add({'class': short, 'tuple_equality': is_tuple and '__eq__' not in own, 'own_methods': sorted(own)})
+        if not is_tuple and '__eq__' not in own:
+            rep.fail(q, f'identity:{short}', f'{short} is neither a tuple nor defines __eq__: two keys for the same rule and position are never equal, or '
+                     f'equality is object identity', ci.loc)
+
+        def mk(i, name, pos=0):
+            common = dict(instance='I', func=f'F{i}', no_memo=False, no_stak=False, is_name=False, is_tokn=False, is_lrec=False, is_memo=True, params=(), kwparams={})
+            ri = rec(f'{INFOS}.RuleInfo', name=name, **common)
+            return ri if short == 'RuleInfo' else rec(q, pos=pos, ruleinfo=ri)
+        pairs = [(mk(0, x), mk(1, y), f'{x} / {y}') for x in names for y in names if x != y]
+        if short == 'MemoKey':
+            pairs += [(mk(0, 'value', 0), mk(0, 'value', 1), 'positions 0 / 1 of the same rule')]
+        for mname in ('__eq__', '__ne__'):
+            fn = own.get(mname)
+            if fn is None:
+                continue
+            for x, y, what in pairs:
+                try:
+                    got = ModelInterp(a).call_bound(Bound(x, fn), [y], {})
+                except Unsupported as e:
+                    raise AnalysisError(f'C04.R8: cannot interpret {short}.{mname}: {e}') from e
+                ok = (got is False) if mname == '__eq__' else (got is True)
+                rep.add({'class': short, 'method': mname, 'records': what, 'returns': repr(got), 'ok': ok})
+                if not ok:
+                    rep.fail(fn.qualname, f'key-identity:{short}:{mname}:{what}', f'{short}.{mname} returns {got!r} for {what}: the memo (and the left-recursion guard) '
+                             f'of one is replayed for the other at the same position', fn.loc)
+        fn = own.get('__hash__')
+        if fn is not None:
+            x, y = mk(0, 'value'), mk(0, 'value')
+            try:
+                hx, hy = (ModelInterp(a, {'hash': __import__('sa.modelinterp', fromlist=['Hook']).Hook(hash)}).call_bound(Bound(r, fn), [], {}) for r in (x, y))
+            except Unsupported as e:
+                raise AnalysisError(f'C04.R8: cannot interpret {short}.__hash__: {e}') from e
+            ok = hx == hy
+            rep.add({'class': short, 'method': '__hash__', 'equal_records_equal_hash': ok})
+            if not ok:
+                rep.fail(fn.qualname, f'key-hash:{short}', f'{short}.__hash__ differs for two equal records: no memo is ever found again', fn.loc)
+    return rep
+
+
+RULES = [r1_key_derivation, r2_ownership, r3_observer_purity, r4_flag_confinement, r5_settings_gate_only_the_store, r_replay, r7_failure_memo, r8_key_identity]
